@@ -482,7 +482,7 @@ def conds(tier):
     return [
         xh.Cond(M, "c16_matlab_concat", t(300, 1800), examples=["f1='a', tail=0", "f1='a;//a', tail=1", "f1='a;\\n', tail=0", "f1='/*a*/', tail=2"],
                 bounds="file1: all strings of length <= %d over {/,*,newline,space,a,;}; file2: 3 fixed continuations" % (3 if q else 4)),
-        xh.Cond(M, "c16_matlab_split", t(420, 1800), kind="shape-bounded", path_timeout=60, examples=["order=1, cut1=2, cut2=5, ending=2", "order=3, cut1=1, cut2=1, ending=1"],
+        xh.Cond(M, "c16_matlab_split", t(420, 1800), kind="shape-bounded", path_timeout=60, examples=["order=1, cut1=2, cut2=5, ending=2", "order=3, cut1=1, cut2=1, ending=1", "order=3, cut1=3, cut2=5, ending=0", "order=0, cut1=7, cut2=9, ending=1"],
                 bounds="4 declaration orders x all pairs of cut points among 10 declarations%s" % (" x 3 file endings" if not q else "; file ending derived")),
         xh.Cond(M, "c16_pybind_parts", t(200, 900), kind="shape-bounded", examples=["nparts=2, boost=1, order=0"], bounds="0-3 additional files x serialization x 3 orders"),
         xh.Cond(M, "c16_scripts", t(420, 1800), kind="shape-bounded", path_timeout=60, examples=["which=0, top=1, ign=2, boost=0, sub=0", "which=1, top=0, ign=0, boost=0, sub=1", "which=0, top=0, ign=0, boost=1, sub=1"],
